@@ -393,6 +393,7 @@ IMMUTABLE_TYPES = _names("numbers.Integral numbers.Real numbers.Number numbers.C
 # parameters analysed at their default value (T3)
 DEFAULT_PARAMS = {"copy", "metric", "scaler", "estimator"}
 NON_DATA_PARAMS = {"random_state"}
+LIBOBJ_CALL_PURE = {"interp1d", "LinearNDInterpolator"}       # calling these objects evaluates, no mutation
 FORCED = {"X_orthogonalizer": {"copy": True}}
 
 
@@ -414,6 +415,7 @@ class Unit:
         self.bodies = []           # (entry name, [stmts])
         self.stale = []            # (entry, attr, location): learned attribute read before assigned
         self.fnreg = {}            # id -> F alternative (functions stored in attributes)
+        self.merged = {}           # merged container identity -> source identities
 
     def var(self, hint):
         self.nvar += 1
@@ -461,6 +463,8 @@ class Interp:
         self.is_init = is_init
         self.depth = 0
         self.stack = []
+        self.nodestack = []
+        self.stored_attrs = set()
         self.cur_node = None
         self.cur_mod = None
         self.must = None           # set of definitely assigned 'self.<attr>' keys or None
@@ -569,8 +573,15 @@ class Interp:
             return
         rv = self.to_ref(val)
         if c.obj:
-            self.emit("StoreAttr", self.u.attr(c.obj + ".*"), rv.var)
-            self._fact_of(c.obj + ".*", rv)
+            todo, seen = [c.obj], set()
+            while todo:
+                o = todo.pop()
+                if o in seen:
+                    continue
+                seen.add(o)
+                self.emit("StoreAttr", self.u.attr(o + ".*"), rv.var)
+                self._fact_of(o + ".*", rv)
+                todo += self.u.merged.get(o, [])
         else:
             pass    # T2: untracked receiver, ndarray semantics (data copied)
 
@@ -609,13 +620,15 @@ class Interp:
                 self.u.fact(key, ("obj", val.obj, val.cls.name))
                 self.u.fnreg[("cls", val.cls.name)] = val.cls
             elif val.obj:
-                self.u.fact(key, ("cont", val.obj))
+                self.u.fact(key, ("cont", val.obj, val.kind))
             elif val.kind == "scalar":
                 self.u.fact(key, ("scalar",))
             else:
                 self.u.fact(key, ("other",))
         elif isinstance(val, F):
             self.u.fact(key, ("fn", self._freeze_f(val)))
+        elif isinstance(val, L):
+            self.u.fact(key, ("fn", self._freeze_f(F([("lib", val.dotted)]))))
         elif isinstance(val, K):
             self.u.fact(key, ("scalar",))
         else:
@@ -632,7 +645,7 @@ class Interp:
             if d[0] == "obj":
                 return R(t, obj=d[1], cls=self.u.fnreg.get(("cls", d[2])))
             if d[0] == "cont":
-                return R(t, obj=d[1])
+                return R(t, obj=d[1], kind=d[2])
         if nonsc and all(d[0] == "fn" for d in nonsc):
             alts = []
             for d in nonsc:
@@ -658,6 +671,8 @@ class Interp:
             self.emit("SetParam", self.u.pname(name), self.site(node, "hyper-parameter %s assigned outside __init__" % name))
         if self.must is not None and ov.obj == "self":
             self.must.add(key)
+        if ov.obj == "self":
+            self.stored_attrs.add(name)
         self._fact_of(key, val)
         if isinstance(val, (K, L, Sup)) or val is None:
             return
@@ -709,14 +724,29 @@ class Interp:
         objs = {r.obj for r in uniq}
         kinds = {r.kind for r in uniq}
         obj = uniq[0].obj if len(objs) == 1 else None
-        if obj is None:
-            # the merged value is no longer a tracked container: keep element flow conservative
-            for r in uniq:
-                if r.obj:
+        cls = uniq[0].cls if obj else None
+        if obj is None and any(r.obj for r in uniq):
+            if all(r.obj and r.cls is None for r in uniq):
+                # union of tracked containers: a new identity that forwards stores to its sources
+                srcs = sorted({r.obj for r in uniq})
+                obj = "m@" + "|".join(srcs)
+                self.u.merged[obj] = srcs
+                for sid in srcs:
                     t = self.u.var(hint + ".el")
-                    self.emit("LoadAttr", t, self.u.attr(r.obj + ".*"))
-                    self.emit("Alias", m, t)
-        return R(m, obj=obj, cls=uniq[0].cls if obj else None, kind=uniq[0].kind if len(kinds) == 1 else None)
+                    self.emit("LoadAttr", t, self.u.attr(sid + ".*"))
+                    self.emit("StoreAttr", self.u.attr(obj + ".*"), t)
+                    for d in self.u.known(sid + ".*"):
+                        self.u.fact(obj + ".*", d)
+            else:
+                for r in uniq:
+                    if r.obj:
+                        t = self.u.var(hint + ".el")
+                        self.emit("LoadAttr", t, self.u.attr(r.obj + ".*"))
+                        self.emit("Alias", m, t)
+        kind = uniq[0].kind if len(kinds) == 1 else None
+        if kind is None and all(k and k.startswith("lib:") and k[4:] in LIBOBJ_CALL_PURE for k in kinds):
+            kind = uniq[0].kind
+        return R(m, obj=obj, cls=cls, kind=kind)
 
     def merge_envs(self, envs):
         envs = [e for e in envs if e is not None]
@@ -1000,7 +1030,7 @@ class InterpExpr(Interp):
             if v.cls is not None:
                 pr = self.ix.find_prop(v.cls, name)
                 if pr is not None:
-                    return self.inline(("func", pr[0], pr[1].mod, None, pr[1], v), [], {}, node, fr)
+                    return self.inline(("func", pr[0], pr[1].mod, None, pr[1], v), CallArgs(), node, fr)
                 fm = self.ix.find_method(v.cls, name)
                 if fm is not None:
                     return F([("func", fm[0], fm[1].mod, None, fm[1], v)])
@@ -1099,3 +1129,941 @@ class InterpExpr(Interp):
         return self.elem_of(it, "it")
 
 
+
+
+class CallArgs:
+    def __init__(self, pos=(), star=None, kw=None, kwrest=None):
+        self.pos, self.star, self.kw, self.kwrest = list(pos), star, dict(kw or {}), kwrest
+
+    def all_vals(self):
+        out = list(self.pos) + list(self.kw.values())
+        if self.star is not None:
+            out.append(self.star)
+        if self.kwrest is not None:
+            out.append(self.kwrest)
+        return out
+
+    def get(self, i, name, default=None):
+        if i is not None and i < len(self.pos):
+            return self.pos[i]
+        if name is not None and name in self.kw:
+            return self.kw[name]
+        if isinstance(self.kwrest, KW) and name in self.kwrest.known:
+            return self.kwrest.known[name]
+        return default
+
+
+class InterpCall(InterpExpr):
+    # ---------------------------------------------------------------- call sites
+    def ev_Call(self, node, fr):
+        f = node.func
+        if isinstance(f, ast.Name) and f.id == "super" and "super" not in fr.env:
+            return Sup(fr.cls_def, fr.selfv)
+        recv = fv = None
+        if isinstance(f, ast.Attribute):
+            recv = self.ev(f.value, fr)
+        else:
+            fv = self.ev(f, fr)
+        ca = CallArgs()
+        for a in node.args:
+            if isinstance(a, ast.Starred):
+                v = self.ev(a.value, fr)
+                if isinstance(v, T) and ca.star is None:
+                    ca.pos += v.items
+                else:
+                    ca.star = v if ca.star is None else self.merge([ca.star, v])
+            else:
+                ca.pos.append(self.ev(a, fr))
+        for k in node.keywords:
+            v = self.ev(k.value, fr)
+            if k.arg is None:
+                if isinstance(v, KW) and v.rest is None and ca.kwrest is None:
+                    ca.kw.update(v.known)
+                else:
+                    ca.kwrest = v if ca.kwrest is None else self.merge([ca.kwrest, v])
+            else:
+                ca.kw[k.arg] = v
+        self.cur_node, self.cur_mod = node, fr.mod
+        if recv is not None:
+            return self.call_attr(recv, f.attr, ca, node, fr, f)
+        return self.call_value(fv, ca, node, fr)
+
+    def call_value(self, fv, ca, node, fr):
+        if isinstance(fv, F):
+            res = [self.call_alt(a, ca, node, fr) for a in fv.alts]
+            return self.merge(res, "call") if len(res) > 1 else res[0]
+        if isinstance(fv, L):
+            return self.call_lib(fv.dotted, ca, node, fr)
+        if isinstance(fv, R) and fv.kind and fv.kind.startswith("lib:") and fv.kind[4:] in LIBOBJ_CALL_PURE:
+            return self.derived([fv] + ca.all_vals(), "call")
+        return self.fail_closed([fv] + ca.all_vals(), node, "call of an unknown callable")
+
+    def call_alt(self, a, ca, node, fr):
+        kind = a[0]
+        if kind == "func":
+            return self.inline(a, ca, node, fr)
+        if kind == "class":
+            return self.instantiate(a[1], ca, node, fr)
+        if kind == "libmethod":
+            return self.call_method(a[1], a[2], ca, node, fr)
+        if kind == "pure":
+            return self.fresh("pure")
+        if kind == "lib":
+            return self.call_lib(a[1], ca, node, fr)
+        if kind == "parallel":
+            return F([("parallel_run",)])
+        if kind == "parallel_run":
+            c = self.fresh("results", obj="p@%s:%s" % (fr.mod, self._pos()))
+            for v in ca.pos:
+                self.store_elem(c, self.elem_of(v))
+            return c
+        return self.fail_closed(ca.all_vals(), node, "callable " + kind)
+
+    def call_attr(self, recv, name, ca, node, fr, fnode):
+        if isinstance(recv, L):
+            return self.call_lib(recv.dotted + "." + name, ca, node, fr)
+        if isinstance(recv, Sup):
+            fm = self.ix.find_method(recv.selfv.cls, name, after=recv.after)
+            if fm is None:
+                return self.call_method(recv.selfv, name, ca, node, fr)
+            return self.inline(("func", fm[0], fm[1].mod, None, fm[1], recv.selfv), ca, node, fr)
+        if isinstance(recv, R) and recv.obj and recv.cls is not None:
+            fm = self.ix.find_method(recv.cls, name)
+            if fm is not None:
+                return self.inline(("func", fm[0], fm[1].mod, None, fm[1], recv), ca, node, fr)
+            if self.u.known(recv.obj + "." + name):
+                return self.call_value(self.load_attr(recv, name, node), ca, node, fr)
+            return self.call_method(recv, name, ca, node, fr)
+        if isinstance(recv, T) and name in M_CONT_ADD and isinstance(fnode.value, ast.Name):
+            add = []
+            for v in ca.pos:
+                add += (v.items if isinstance(v, T) else [self.elem_of(v)]) if name in ("extend", "update") else [v]
+            fr.env[fnode.value.id] = T(recv.items + add)
+            return K(None)
+        return self.call_method(recv, name, ca, node, fr)
+
+    # ---------------------------------------------------------------- inlining
+    def default_of(self, expr, mod):
+        if expr is None:
+            return None
+        try:
+            return K(ast.literal_eval(expr))
+        except Exception:
+            pass
+        return self.ev(expr, Frame(mod, {}))
+
+    def inline(self, alt, ca, node, fr):
+        _, fn, mod, cenv, cls_def, selfv = alt
+        name = getattr(fn, "name", "<lambda>")
+        if self.depth >= self.MAXDEPTH or sum(1 for s in self.nodestack if s is fn) >= 2:
+            return self.fail_closed(ca.all_vals(), node, "recursion / inlining depth at " + name)
+        env = dict(cenv) if cenv else {}
+        a = fn.args
+        params = list(a.posonlyargs) + list(a.args)
+        pos = list(ca.pos)
+        kw = dict(ca.kw)
+        if selfv is not None and params:
+            env[params[0].arg] = selfv
+            params = params[1:]
+        ndef = len(a.defaults)
+        allp = list(a.posonlyargs) + list(a.args)
+        defaults = {}
+        for i, d in enumerate(a.defaults):
+            defaults[allp[len(allp) - ndef + i].arg] = d
+        for p, d in zip(a.kwonlyargs, a.kw_defaults):
+            if d is not None:
+                defaults[p.arg] = d
+
+        def missing(pname):
+            cands = []
+            if pname in NON_DATA_PARAMS and pname in defaults:
+                return self.default_of(defaults[pname], mod)
+            if ca.star is not None:
+                cands.append(self.elem_of(ca.star, pname))
+            if ca.kwrest is not None:
+                if isinstance(ca.kwrest, KW):
+                    if pname in ca.kwrest.known:
+                        return ca.kwrest.known[pname]
+                    if ca.kwrest.rest is not None:
+                        cands.append(self.elem_of(ca.kwrest.rest, pname))
+                else:
+                    cands.append(self.elem_of(ca.kwrest, pname))
+            if pname in defaults:
+                cands.append(self.default_of(defaults[pname], mod))
+            if not cands:
+                return self.fresh(pname + ".missing", kind="scalar")
+            return self.merge(cands, pname) if len(cands) > 1 else cands[0]
+
+        for i, p in enumerate(params):
+            if i < len(pos):
+                env[p.arg] = pos[i]
+            elif p.arg in kw:
+                env[p.arg] = kw.pop(p.arg)
+            else:
+                env[p.arg] = missing(p.arg)
+        extra = pos[len(params):]
+        if a.vararg is not None:
+            if ca.star is None:
+                env[a.vararg.arg] = T(extra)
+            else:
+                c = self.fresh("varargs", obj="v@%s:%s" % (mod, getattr(fn, "lineno", 0)))
+                for v in extra:
+                    self.store_elem(c, v)
+                self.store_elem(c, self.elem_of(ca.star))
+                env[a.vararg.arg] = c
+        for p in a.kwonlyargs:
+            env[p.arg] = kw.pop(p.arg) if p.arg in kw else missing(p.arg)
+        if a.kwarg is not None:
+            rest = None
+            if ca.kwrest is not None:
+                rest = ca.kwrest.rest if isinstance(ca.kwrest, KW) else self.to_ref(ca.kwrest)
+                if isinstance(ca.kwrest, KW):
+                    for k2, v2 in ca.kwrest.known.items():
+                        kw.setdefault(k2, v2)
+            env[a.kwarg.arg] = KW(kw, rest)
+        nf = Frame(mod, env, cls_def, selfv, name)
+        self.depth += 1
+        self.stack.append(name)
+        self.nodestack.append(fn)
+        saved = (self.cur_node, self.cur_mod)
+        try:
+            if isinstance(fn, ast.Lambda):
+                nf.returns.append(self.ev(fn.body, nf))
+            else:
+                try:
+                    self.exec_block(fn.body, nf)
+                    nf.returns.append(K(None))
+                except Terminated:
+                    pass
+        finally:
+            self.depth -= 1
+            self.stack.pop()
+            self.nodestack.pop()
+            self.cur_node, self.cur_mod = saved
+        rets = nf.returns
+        if len(rets) > 1 and any(not (isinstance(r, K) and r.val is None) for r in rets):
+            rets = [r for r in rets if not (isinstance(r, K) and r.val is None)] + \
+                   ([K(None)] if all(isinstance(r, K) for r in rets) else [])
+        return self.merge(rets, name + ".ret") if rets else K(None)
+
+    def instantiate(self, ci, ca, node, fr):
+        v = self.fresh(ci.name, obj="o@%s:%s:%s" % (fr.mod, getattr(node, "lineno", 0), getattr(node, "col_offset", 0)), cls=ci)
+        self.u.fnreg[("cls", ci.name)] = ci
+        fm = self.ix.find_method(ci, "__init__")
+        if fm is not None:
+            self.inline(("func", fm[0], fm[1].mod, None, fm[1], v), ca, node, fr)
+        return v
+
+    # ---------------------------------------------------------------- library callees (T1)
+    def copy_flag(self, ca, default):
+        v = ca.kw.get("copy")
+        if v is None and isinstance(ca.kwrest, KW):
+            v = ca.kwrest.known.get("copy")
+        if v is None:
+            return default if (ca.kwrest is None or (isinstance(ca.kwrest, KW) and ca.kwrest.rest is None)) else None
+        if isinstance(v, K):
+            return bool(v.val) if v.val is not None else default
+        return None
+
+    def may_or_fresh(self, src, copy, hint):
+        if copy is True:
+            return self.fresh(hint)
+        return self.derived([src], hint)
+
+    def retaining(self, vals, hint, node=None):
+        v = self.fresh(hint, obj="x@%s:%s:%s" % (self.cur_mod, self._pos(), hint), kind="lib:" + hint)
+        for x in vals:
+            self.store_elem(v, x)
+        return v
+
+    def out_arg(self, ca, npos_in):
+        if "out" in ca.kw and not (isinstance(ca.kw["out"], K) and ca.kw["out"].val is None):
+            return ca.kw["out"]
+        if npos_in is not None and len(ca.pos) > npos_in:
+            return ca.pos[npos_in]
+        return None
+
+    def call_lib(self, dotted, ca, node, fr):
+        parts = dotted.split(".")
+        top, last = parts[0], parts[-1]
+        args = ca.all_vals()
+        a0 = ca.pos[0] if ca.pos else None
+        if top == "builtins":
+            return self.call_builtin(last, ca, node, fr)
+        if last in LIB_CLASS:
+            return self.retaining(args, last)
+        if top == "scipy" and last in NP_FRESH and "out" not in ca.kw:
+            return self.fresh(last)
+        if top == "numpy":
+            if len(parts) > 2 and parts[1] == "random":
+                return self.fresh("rand")
+            nin = 1 if last in NP_UFUNC1 else 2 if last in NP_UFUNC2 else None
+            out = self.out_arg(ca, nin)
+            if out is not None:
+                self.write(out, node, "out= argument of numpy." + last)
+                return out
+            if last == "array":
+                cp = self.copy_flag(ca, True)
+                return self.fresh("array") if cp is True else self.derived([a0], "array")
+            if last in NP_WRITE0:
+                self.write(a0, node, "numpy.%s writes its first argument" % last)
+                return K(None)
+            if last in NP_VIEW0:
+                return self.derived([a0], last, may=False)
+            if last in NP_MAY0:
+                return self.derived([a0], last)
+            if last in NP_FRESH or last == "where":
+                return self.fresh(last)
+            return self.fail_closed(args, node, "unknown callee " + dotted)
+        if last in ("clone", "deepcopy"):
+            return self.retaining([], last)
+        if last in LIB_FRESH:
+            return self.fresh(last)
+        if last in ("check_array", "as_float_array", "column_or_1d", "_check_sample_weight"):
+            return self.may_or_fresh(a0 if a0 is not None else ca.get(None, "X"), self.copy_flag(ca, last == "as_float_array"), last)
+        if last in LIB_MAY0:
+            return self.derived([a0], last)
+        if last == "check_X_y":
+            cp = self.copy_flag(ca, False)
+            return T([self.may_or_fresh(ca.get(0, "X"), cp, "X"), self.may_or_fresh(ca.get(1, "y"), cp, "y")])
+        if last == "check_pairwise_arrays":
+            X, Y = ca.get(0, "X"), ca.get(1, "Y", K(None))
+            cp = self.copy_flag(ca, False)
+            return T([self.may_or_fresh(X, cp, "X"), self.derived([X, Y], "Y")])
+        if last == "indexable":
+            return T([self.derived([v], "ix") for v in ca.pos]) if ca.star is None else self.derived(args, "ix")
+        if last == "svd_flip":
+            u, v = ca.get(0, "u"), ca.get(1, "v")
+            self.write(u, node, "svd_flip scales u in place")
+            self.write(v, node, "svd_flip scales v in place")
+            return T([u, v])
+        if last == "_init_arpack_v0":
+            self.write(ca.get(1, "random_state"), node, "random number generator consumed")
+            return self.fresh("v0")
+        if last == "safe_mask":
+            return self.derived([ca.get(1, "mask")], "mask")
+        if last == "check_scoring":
+            return F([("pure",)])
+        if last == "Parallel":
+            return F([("parallel_run",)])
+        if last == "delayed":
+            return a0
+        if last in ("tqdm", "trange"):
+            return a0 if a0 is not None else self.fresh("tqdm")
+        if last == "train_test_split":
+            return self.fresh("split")
+        if last in LIB_CLASS:
+            return self.retaining(args, last)
+        return self.fail_closed(args, node, "unknown callee " + dotted)
+
+    def call_builtin(self, name, ca, node, fr):
+        a0 = ca.pos[0] if ca.pos else None
+        args = ca.all_vals()
+        if name in ("getattr", "hasattr"):
+            nm = ca.pos[1] if len(ca.pos) > 1 else None
+            if isinstance(a0, R) and a0.obj and isinstance(nm, K) and isinstance(nm.val, str):
+                if name == "hasattr":
+                    self.note_read(a0, nm.val, node)
+                    return self.fresh("hasattr", kind="scalar")
+                v = self.get_attr(a0, nm.val, node, fr)
+                return self.merge([v] + ca.pos[2:], "getattr") if len(ca.pos) > 2 else v
+            if name == "hasattr":
+                return self.fresh("hasattr", kind="scalar")
+            if isinstance(a0, R) and a0.obj:
+                loads = []
+                for key in list(self.u.attrs):
+                    if key.startswith(a0.obj + ".") and not key.endswith(".*"):
+                        t = self.u.var("getattr")
+                        self.emit("LoadAttr", t, self.u.attr(key))
+                        loads.append(R(t))
+                return self.derived(loads + [a0] + ca.pos[2:], "getattr", may=False)
+            return self.derived([a0] + ca.pos[2:], "getattr")
+        if name in ("range",):
+            return Iter(self.fresh("i", kind="scalar"))
+        if name == "enumerate":
+            return Iter(T([self.fresh("i", kind="scalar"), self.iter_elem(a0)]))
+        if name == "zip":
+            return Iter(T([self.iter_elem(v) for v in ca.pos]))
+        if name in ("list", "tuple", "sorted", "reversed", "set", "frozenset", "iter"):
+            if a0 is None:
+                return self.fresh(name, obj="n@%s:%s" % (fr.mod, self._pos())) if name in ("list", "set") else T([])
+            if isinstance(a0, T):
+                return a0
+            c = self.fresh(name, obj="n@%s:%s" % (fr.mod, self._pos()))
+            self.store_elem(c, self.iter_elem(a0))
+            return c
+        if name == "dict":
+            c = self.fresh("dict", obj="n@%s:%s" % (fr.mod, self._pos()))
+            for v in ca.pos:
+                self.store_elem(c, self.iter_elem(v))
+            for v in ca.kw.values():
+                self.store_elem(c, v)
+            if ca.kwrest is not None:
+                self.store_elem(c, self.elem_of(ca.kwrest))
+            return c
+        if name == "next":
+            return self.iter_elem(a0)
+        if name in ("min", "max"):
+            srcs = [self.iter_elem(v) for v in ca.pos] if len(ca.pos) == 1 else list(ca.pos)
+            if all(self._scalar(v) for v in srcs):
+                return self.fresh(name, kind="scalar")
+            return self.derived(srcs, name)
+        if name in BUILTIN_SCALAR:
+            return self.fresh(name, kind="scalar")
+        if name[:1].isupper() or name in ("slice", "object", "complex", "bytes"):
+            return self.fresh(name)
+        return self.fail_closed(args, node, "unknown builtin " + name)
+
+    def note_read(self, ov, name, node):
+        if self.must is not None and ov.obj == "self" and ("self." + name) not in self.must:
+            self.u.stale.append((self.entry, name, "%s:%s" % (self.cur_mod, getattr(node, "lineno", 0))))
+
+    # ---------------------------------------------------------------- methods on values
+    def call_method(self, recv, name, ca, node, fr):
+        args = ca.all_vals()
+        a0 = ca.pos[0] if ca.pos else None
+        if isinstance(recv, KW):
+            if name in ("get", "pop"):
+                dflt = ca.pos[1] if len(ca.pos) > 1 else K(None)
+                if isinstance(a0, K) and a0.val in recv.known:
+                    v = recv.known[a0.val]
+                    if name == "pop":
+                        del recv.known[a0.val]
+                    return v
+                if recv.rest is None:
+                    return dflt
+                return self.merge([self.elem_of(recv.rest), dflt], name)
+            if name in ("items", "values", "keys"):
+                e = self.elem_of(recv)
+                return Iter(T([self.fresh("k", kind="scalar"), e]) if name == "items" else e)
+            return self.fail_closed([recv] + args, node, "method %s of **kwargs" % name)
+        if isinstance(recv, (K, T, F, L, Iter)) or recv is None:
+            if isinstance(recv, T) and name in ("copy",):
+                return recv
+            return self.fresh(name, kind="scalar")
+        if not isinstance(recv, R):
+            return self.fail_closed([recv] + args, node, "method " + name)
+        if recv.kind == "scalar":
+            return self.fresh(name, kind="scalar")
+        cont = recv.obj is not None and recv.cls is None
+        if name == "_validate_data":
+            cp = self.copy_flag(ca, False)
+            X = ca.get(0, "X", K(None))
+            y = ca.get(1, "y", K(None))
+            if isinstance(y, K):
+                return self.may_or_fresh(X, cp, "X")
+            return T([self.may_or_fresh(X, cp, "X"), self.may_or_fresh(y, cp, "y")])
+        if cont:
+            if name == "copy":
+                c = self.fresh("copy", obj="n@%s:%s" % (fr.mod, self._pos()))
+                self.store_elem(c, self.elem_of(recv))
+                return c
+            if name in ("get", "pop", "popitem", "setdefault", "__getitem__"):
+                if name != "get":
+                    self.write(recv, node, "container method " + name)
+                if name == "setdefault" and len(ca.pos) > 1:
+                    self.store_elem(recv, ca.pos[1])
+                return self.merge([self.elem_of(recv)] + ca.pos[1:2], name)
+            if name in ("items", "values", "keys"):
+                e = self.elem_of(recv)
+                return Iter(T([self.fresh("k", kind="scalar"), e]) if name == "items" else e)
+        if name in M_CONT_ADD:
+            self.write(recv, node, "container method " + name)
+            for v in args:
+                self.store_elem(recv, self.iter_elem(v) if name in ("extend", "update") else v)
+            return K(None)
+        if name in M_CONT_DEL:
+            self.write(recv, node, "container method " + name)
+            return self.elem_of(recv)
+        if name in M_VIEW:
+            return self.derived([recv], name, may=False)
+        if name == "astype":
+            return self.fresh("astype") if self.copy_flag(ca, True) is True else self.derived([recv], "astype")
+        if name in M_WRITE:
+            self.write(recv, node, "in-place method ." + name + "()")
+            return K(None)
+        if name in M_RNG:
+            self.write(recv, node, "random number generator consumed")
+            return self.fresh(name)
+        if name in M_EST_FIT:
+            self.write(recv, node, "estimator method ." + name + "() changes its receiver")
+            for x in args:
+                if recv.obj:
+                    self.store_elem(recv, x)
+                else:
+                    for r in self.refs(x):
+                        self.emit("Alias", recv.var, r.var)
+            if name in ("fit_transform", "fit_predict"):
+                return self.derived([recv] + args, name)
+            return recv
+        if name in M_EST_READ:
+            return self.derived([recv] + args, name)
+        if name in M_FRESH or name in ("_more_tags", "_get_tags", "get_feature_names_out"):
+            out = self.out_arg(ca, None)
+            if out is not None:
+                self.write(out, node, "out= argument of ." + name)
+                return out
+            return self.fresh(name)
+        return self.fail_closed([recv] + args, node, "unknown method ." + name)
+
+
+def _assigned_names(stmts):
+    """names (re)bound or mutated through a method / item assignment inside stmts"""
+    out = set()
+    for s in stmts:
+        for n in ast.walk(s):
+            if isinstance(n, ast.Name) and isinstance(n.ctx, (ast.Store, ast.Del)):
+                out.add(n.id)
+            elif isinstance(n, ast.AugAssign) and isinstance(n.target, ast.Name):
+                out.add(n.target.id)
+            elif isinstance(n, ast.Subscript) and isinstance(n.ctx, ast.Store) and isinstance(n.value, ast.Name):
+                out.add(n.value.id)
+            elif isinstance(n, ast.Call) and isinstance(n.func, ast.Attribute) and isinstance(n.func.value, ast.Name) \
+                    and n.func.attr in (M_CONT_ADD | M_CONT_DEL):
+                out.add(n.func.value.id)
+    return out
+
+
+class Translator(InterpCall):
+    # ---------------------------------------------------------------- statements
+    def exec_block(self, stmts, fr):
+        for s in stmts:
+            self.cur_node, self.cur_mod = s, fr.mod
+            m = getattr(self, "st_" + type(s).__name__, None)
+            if m is None:
+                vals = [self.ev(c, fr) for c in ast.iter_child_nodes(s) if isinstance(c, ast.expr)]
+                self.fail_closed(vals, s, "statement " + type(s).__name__)
+            else:
+                m(s, fr)
+
+    def st_Expr(self, s, fr):
+        self.ev(s.value, fr)
+
+    def st_Pass(self, s, fr):
+        pass
+
+    st_Break = st_Continue = st_Global = st_Nonlocal = st_Delete = st_ClassDef = st_Pass
+
+    def st_Import(self, s, fr):
+        for a in s.names:
+            fr.env[a.asname or a.name.split(".")[0]] = L(a.name if a.asname else a.name.split(".")[0])
+
+    def st_ImportFrom(self, s, fr):
+        for a in s.names:
+            fr.env[a.asname or a.name] = L((s.module or "") + "." + a.name)
+
+    def st_FunctionDef(self, s, fr):
+        fr.env[s.name] = F([("func", s, fr.mod, dict(fr.env), fr.cls_def, None)])
+
+    def st_Assert(self, s, fr):
+        self.ev(s.test, fr)
+
+    def st_Return(self, s, fr):
+        fr.returns.append(self.ev(s.value, fr) if s.value is not None else K(None))
+        raise Terminated()
+
+    def st_Raise(self, s, fr):
+        if s.exc is not None:
+            self.ev(s.exc, fr)
+        raise Terminated()
+
+    def st_Assign(self, s, fr):
+        v = self.ev(s.value, fr)
+        for t in s.targets:
+            self.assign(t, v, fr)
+
+    def st_AnnAssign(self, s, fr):
+        if s.value is not None:
+            self.assign(s.target, self.ev(s.value, fr), fr)
+
+    def assign(self, t, v, fr):
+        if isinstance(t, ast.Name):
+            fr.env[t.id] = v
+            fr.narrow.pop(ast.dump(ast.Name(id=t.id, ctx=ast.Load())), None)
+        elif isinstance(t, (ast.Tuple, ast.List)):
+            if isinstance(v, T) and len(v.items) == len(t.elts) and not any(isinstance(e, ast.Starred) for e in t.elts):
+                for e, it in zip(t.elts, v.items):
+                    self.assign(e, it, fr)
+            else:
+                for e in t.elts:
+                    if isinstance(e, ast.Starred):
+                        c = self.fresh("rest", obj="s@%s:%s" % (fr.mod, self._pos()))
+                        self.store_elem(c, self.iter_elem(v))
+                        self.assign(e.value, c, fr)
+                    else:
+                        self.assign(e, self.iter_elem(v), fr)
+        elif isinstance(t, ast.Starred):
+            self.assign(t.value, v, fr)
+        elif isinstance(t, ast.Attribute):
+            ov = self.ev(t.value, fr)
+            if isinstance(ov, R) and ov.obj:
+                self.store_attr(ov, t.attr, v, t)
+            else:
+                self.write(ov, t, "attribute assignment on an object of unknown class")
+                for r in self.refs(ov):
+                    for q in self.refs(v):
+                        self.emit("Alias", r.var, q.var)
+        elif isinstance(t, ast.Subscript):
+            base = self.ev(t.value, fr)
+            idx = self.ev(t.slice, fr)
+            if isinstance(base, T):
+                if isinstance(t.value, ast.Name):
+                    fr.env[t.value.id] = T(base.items + [v])
+            elif isinstance(base, KW):
+                if isinstance(idx, K):
+                    base.known[idx.val] = v
+                elif base.rest is not None:
+                    self.store_elem(base.rest, v)
+            else:
+                self.write(base, t, "item assignment")
+                if isinstance(base, R) and base.obj:
+                    self.store_elem(base, v)
+        else:
+            self.fail_closed([v], t, "assignment target " + type(t).__name__)
+
+    def st_AugAssign(self, s, fr):
+        t = s.target
+        rhs = self.ev(s.value, fr)
+        if isinstance(t, ast.Name):
+            cur = self.ev(ast.Name(id=t.id, ctx=ast.Load(), lineno=s.lineno, col_offset=s.col_offset), fr)
+            if isinstance(cur, T):
+                fr.env[t.id] = T(cur.items + (rhs.items if isinstance(rhs, T) else [self.iter_elem(rhs)]))
+            elif isinstance(cur, K) or (isinstance(cur, R) and cur.kind == "scalar"):
+                fr.env[t.id] = self.fresh(t.id, kind="scalar" if self._scalar(rhs) else None)
+            elif isinstance(cur, R):
+                self.write(cur, s, "augmented assignment (in place for arrays)")
+                if cur.obj and cur.cls is None:
+                    self.store_elem(cur, self.iter_elem(rhs))
+            else:
+                self.fail_closed([cur, rhs], s, "augmented assignment")
+        elif isinstance(t, ast.Attribute):
+            ov = self.ev(t.value, fr)
+            if isinstance(ov, R) and ov.obj:
+                cur = self.load_attr(ov, t.attr, t)
+                if isinstance(cur, R) and cur.kind == "scalar":
+                    self.store_attr(ov, t.attr, self.fresh(t.attr, kind="scalar" if self._scalar(rhs) else None), t)
+                else:
+                    self.write(cur, s, "augmented assignment on attribute %s (in place for arrays)" % t.attr)
+                    if ov.obj == "self" and t.attr in self.hyper and not self.is_init:
+                        self.emit("SetParam", self.u.pname(t.attr), self.site(s, "hyper-parameter %s re-assigned" % t.attr))
+            else:
+                self.write(self.derived([ov], t.attr), s, "augmented assignment on a field")
+                self.write(ov, s, "augmented assignment on a field")
+        elif isinstance(t, ast.Subscript):
+            base = self.ev(t.value, fr)
+            self.ev(t.slice, fr)
+            if isinstance(base, (T, KW)):
+                pass
+            else:
+                self.write(base, s, "augmented item assignment")
+        else:
+            self.fail_closed([rhs], s, "augmented assignment target")
+
+    def _branch(self, stmts, fr, env, must, narrow=None):
+        """execute stmts in a copy of the environment; -> (env or None if terminated, must)"""
+        saved_env, saved_must, saved_narrow = fr.env, self.must, fr.narrow
+        fr.env = dict(env)
+        self.must = set(must) if must is not None else None
+        fr.narrow = dict(saved_narrow)
+        for d in narrow or ():
+            fr.narrow[d] = "scalar"
+        try:
+            try:
+                self.exec_block(stmts, fr)
+                res = (fr.env, self.must)
+            except Terminated:
+                res = (None, self.must)
+        finally:
+            fr.env, self.must, fr.narrow = saved_env, saved_must, saved_narrow
+        return res
+
+    def st_If(self, s, fr):
+        t = self.truth(s.test, fr)
+        self.ev(s.test, fr)
+        nar = self.narrowing(s.test, fr)
+        if t is True:
+            e, m = self._branch(s.body, fr, fr.env, self.must, nar)
+            if e is None:
+                raise Terminated()
+            fr.env, self.must = e, m
+            return
+        if t is False:
+            e, m = self._branch(s.orelse, fr, fr.env, self.must)
+            if e is None:
+                raise Terminated()
+            fr.env, self.must = e, m
+            return
+        e1, m1 = self._branch(s.body, fr, fr.env, self.must, nar)
+        e2, m2 = self._branch(s.orelse, fr, fr.env, self.must)
+        if e1 is None and e2 is None:
+            raise Terminated()
+        fr.env = self.merge_envs([e1, e2])
+        if self.must is not None:
+            live = [m for e, m in ((e1, m1), (e2, m2)) if e is not None]
+            self.must = set.intersection(*live) if live else self.must
+
+    def _loop(self, s, fr, bind):
+        names = _assigned_names(s.body)
+        loopvars = {}
+        for n in names:
+            if n not in fr.env:
+                continue
+            v = fr.env[n]
+            if isinstance(v, K):
+                fr.env[n] = R(self.u.var(n), kind="scalar")
+            elif isinstance(v, (T, KW, Iter)):
+                fr.env[n] = self.to_ref(v, n)
+                loopvars[n] = fr.env[n]
+            elif isinstance(v, R):
+                m = self.u.var(n + ".loop")
+                self.emit("Alias", m, v.var)
+                fr.env[n] = R(m, obj=v.obj, cls=v.cls, kind=v.kind)
+                loopvars[n] = fr.env[n]
+        pre = dict(fr.env)
+        must0 = self.must
+        saved_env = fr.env
+        fr.env = dict(pre)
+        self.must = set(must0) if must0 is not None else None
+        try:
+            bind()
+            try:
+                self.exec_block(s.body, fr)
+            except Terminated:
+                pass
+            post = fr.env
+        finally:
+            fr.env = saved_env
+            self.must = must0
+        for n, lv in loopvars.items():
+            pv = post.get(n)
+            for r in self.refs(pv) if pv is not None else []:
+                if r.var != lv.var:
+                    self.emit("Alias", lv.var, r.var)
+        fr.env = self.merge_envs([pre, post])
+        if s.orelse:
+            self.exec_block(s.orelse, fr)
+
+    def st_For(self, s, fr):
+        it = self.ev(s.iter, fr)
+        self._loop(s, fr, lambda: self.assign(s.target, self.iter_elem(it), fr))
+
+    def st_While(self, s, fr):
+        self.ev(s.test, fr)
+        self._loop(s, fr, lambda: self.ev(s.test, fr))
+
+    def st_With(self, s, fr):
+        for it in s.items:
+            v = self.ev(it.context_expr, fr)
+            if it.optional_vars is not None:
+                self.assign(it.optional_vars, v, fr)
+        self.exec_block(s.body, fr)
+
+    def st_Try(self, s, fr):
+        pre = dict(fr.env)
+        must0 = set(self.must) if self.must is not None else None
+        e_body, m_body = self._branch(s.body + s.orelse, fr, fr.env, self.must)
+        envs = [e_body]
+        musts = [m_body] if e_body is not None else []
+        start = self.merge_envs([pre, e_body]) if e_body is not None else pre
+        for h in s.handlers:
+            if h.type is not None:
+                self.ev(h.type, fr)
+            henv = dict(start)
+            if h.name:
+                henv[h.name] = self.fresh("exc")
+            e, m = self._branch(h.body, fr, henv, must0)
+            envs.append(e)
+            if e is not None:
+                musts.append(m)
+        live = [e for e in envs if e is not None]
+        if not live:
+            if s.finalbody:
+                self.exec_block(s.finalbody, fr)
+            raise Terminated()
+        fr.env = self.merge_envs(live)
+        if self.must is not None:
+            self.must = set.intersection(*musts) if musts else must0
+        if s.finalbody:
+            self.exec_block(s.finalbody, fr)
+
+
+# --------------------------------------------------------------------------- entry points
+ENTRY_METHODS = ["fit", "transform", "inverse_transform", "predict", "score", "score_samples", "fit_transform"]
+
+
+def entry_methods(ix, ci):
+    """[(name, FunctionDef, defining ClassInfo)]: __init__, the standard API and every public method
+    defined in skmatter for this class"""
+    names = ["__init__"] + ENTRY_METHODS
+    for kind, c in ix.mro(ci):
+        if kind == "int" and c.mod != "__stubs__":
+            for n in c.methods:
+                if not n.startswith("_") and n not in names:
+                    names.append(n)
+    out = []
+    for n in names:
+        fm = ix.find_method(ci, n)
+        if fm is not None and not (fm[1].mod == "__stubs__" and n == "__init__"):
+            out.append((n, fm[0], fm[1]))
+    return out
+
+
+def _bind_entry_params(tr, fn, unit, label, forced, selfv=None):
+    """environment of an entry point: every parameter is a caller root (T3 exceptions apply)"""
+    env = {}
+    a = fn.args
+    params = list(a.posonlyargs) + list(a.args)
+    if selfv is not None and params:
+        env[params[0].arg] = selfv
+        params = params[1:]
+    allp = list(a.posonlyargs) + list(a.args)
+    defaults = {}
+    for i, d in enumerate(a.defaults):
+        defaults[allp[len(allp) - len(a.defaults) + i].arg] = d
+    for p, d in zip(a.kwonlyargs, a.kw_defaults):
+        if d is not None:
+            defaults[p.arg] = d
+    for p in params + list(a.kwonlyargs):
+        n = p.arg
+        if n in forced:
+            env[n] = K(forced[n])
+            continue
+        if n in DEFAULT_PARAMS and n in defaults:
+            try:
+                env[n] = K(ast.literal_eval(defaults[n]))
+                continue
+            except Exception:
+                pass
+        v = unit.var("%s:%s" % (label, n))
+        if n not in NON_DATA_PARAMS:
+            unit.roots.append(v)
+        env[n] = R(v)
+    if a.vararg is not None:
+        v = unit.var("%s:*%s" % (label, a.vararg.arg))
+        unit.roots.append(v)
+        c = tr.fresh("varargs", obj="v@entry:%s" % label)
+        tr.store_elem(c, R(v))
+        env[a.vararg.arg] = c
+    if a.kwarg is not None:
+        v = unit.var("%s:**%s" % (label, a.kwarg.arg))
+        unit.roots.append(v)
+        c = tr.fresh("kwargs", obj="k@entry:%s" % label)
+        tr.store_elem(c, R(v))
+        env[a.kwarg.arg] = KW({}, c)
+    return env
+
+
+def translate_class(ix, ci, label, passes=4):
+    facts = {}
+    unit = None
+    for _ in range(passes):
+        unit = Unit(ix, label, facts)
+        hyper = ix.ctor_params(ci)
+        unit.hyper = hyper
+        unit.is_class = True
+        unit.stored = {}
+        for name, fn, cdef in entry_methods(ix, ci):
+            tr = Translator(unit, "%s.%s" % (label, name), hyper=hyper, is_init=(name == "__init__"))
+            selfv = tr.fresh("self", obj="self", cls=ci)
+            env = _bind_entry_params(tr, fn, unit, name, {}, selfv)
+            fr = Frame(cdef.mod, env, cdef, selfv, name)
+            tr.stack.append(name)
+            try:
+                tr.exec_block(fn.body, fr)
+            except Terminated:
+                pass
+            unit.stored[name] = set(tr.stored_attrs)
+            unit.bodies.append((name, tr.out))
+        merged = {k: set(v) for k, v in facts.items()}
+        for k, v in unit.newfacts.items():
+            merged.setdefault(k, set()).update(v)
+        if merged == facts:
+            break
+        facts = merged
+    unit.stale = stale_reads(ix, ci, label, facts, unit)
+    return unit
+
+
+def stale_reads(ix, ci, label, facts, unit):
+    """definite-assignment diagnostic for sub-claim (b): learned attributes (assigned by a cold fit, not
+    by __init__, not hyper-parameters) that fit may read -- also through hasattr/getattr -- on a path
+    on which this very call has not assigned them yet: state of a previous fit can leak into a refit."""
+    su = Unit(ix, label, facts)
+    hyper = ix.ctor_params(ci)
+    res = {}
+    for name, fn, cdef in entry_methods(ix, ci):
+        if name not in ("__init__", "fit"):
+            continue
+        tr = Translator(su, "%s.%s" % (label, name), hyper=hyper, is_init=(name == "__init__"))
+        selfv = tr.fresh("self", obj="self", cls=ci)
+        env = _bind_entry_params(tr, fn, su, name, {"warm_start": False} if name == "fit" else {}, selfv)
+        if name == "fit":
+            tr.must = set()
+        try:
+            tr.exec_block(fn.body, Frame(cdef.mod, env, cdef, selfv, name))
+        except Terminated:
+            pass
+        res[name] = tr
+    if "fit" not in res:
+        return []
+    init_stored = res["__init__"].stored_attrs if "__init__" in res else set()
+    learned = res["fit"].stored_attrs - init_stored - set(hyper)
+    return sorted({(a, loc) for _, a, loc in su.stale if a in learned})
+
+
+def translate_function(ix, fdesc, label):
+    _, fn, mod = fdesc
+    unit = Unit(ix, label, {})
+    unit.hyper = []
+    unit.is_class = False
+    tr = Translator(unit, label)
+    env = _bind_entry_params(tr, fn, unit, label, FORCED.get(fn.name, {}))
+    fr = Frame(mod, env, None, None, fn.name)
+    tr.stack.append(fn.name)
+    try:
+        tr.exec_block(fn.body, fr)
+    except Terminated:
+        pass
+    unit.bodies.append((fn.name, tr.out))
+    return unit
+
+
+def translate_repo(repo):
+    """-> [Unit] for every public class / function of the package under <repo>/src/skmatter"""
+    ix = Index(repo)
+    units, seen = [], set()
+    for pkg, name, v in ix.public_api():
+        if isinstance(v, ClassInfo):
+            units.append(translate_class(ix, v, "%s.%s" % (pkg, name)))
+        else:
+            if id(v[1]) in seen:
+                continue
+            seen.add(id(v[1]))
+            units.append(translate_function(ix, v, "%s.%s" % (pkg, name)))
+    return units
+
+
+# --------------------------------------------------------------------------- Coq text
+def stmt_coq(st):
+    k = st[0]
+    if k == "Fresh":
+        return "Fresh %d" % st[1]
+    if k in ("Alias", "MayAlias", "StoreAttr", "LoadAttr"):
+        return "%s %d %d" % (k, st[1], st[2])
+    return "%s %d %d" % (k, st[1], st[2])          # Write x site / SetParam p site
+
+
+def unit_coq(unit, idx):
+    """Coq definitions for one unit; verdicts are encoded as a flat nat list per entry point:
+    [safe; closed; number of sites; sites...]"""
+    lines = []
+    names = []
+    for j, (name, body) in enumerate(unit.bodies):
+        nm = "b_%d_%d" % (idx, j)
+        names.append(nm)
+        txt = "; ".join(stmt_coq(s) for s in body)
+        lines.append("Definition %s : list stmt := [%s]." % (nm, txt))
+    lines.append("Definition bodies_%d : list (list stmt) := [%s]." % (idx, "; ".join(names)))
+    roots = "[%s]%%positive" % "; ".join(str(r) for r in unit.roots) if unit.roots else "[]"
+    lines.append("Definition roots_%d : list var := %s." % (idx, roots))
+    return "\n".join(lines)
